@@ -30,6 +30,9 @@ type GateSpec struct {
 	NoRet bool
 	Cfg   string // configuration (default "default")
 	Block string // same syntax as Sink: instructions that discharge a path (must-pass-through)
+	// Exact: a NEW must-pass gate of the sink is reported too (the accumulate-valid-inputs functions of
+	// recovery: an added skip condition refuses inputs that were accepted before)
+	Exact bool
 }
 
 type FrozenGate struct {
@@ -274,6 +277,31 @@ func CheckGates(c *Ctx, prop string, specs []GateSpec) {
 					c.R.Bad("APO-BOUND", s.Func, b, pos, "a length/index/threshold comparison of this function changed its operands or strictness (or disappeared)")
 				}
 			}
+		}
+		if s.Exact {
+			frozen := map[string]bool{}
+			for _, fg := range ft.Gates {
+				frozen[fmt.Sprintf("%s|%v", fg.Cond, fg.FailWhen)] = true
+			}
+			for _, g := range gates {
+				if !g.MustPass {
+					continue
+				}
+				k := fmt.Sprintf("%s|%v", g.Cond, g.FailWhen)
+				known := frozen[k]
+				if !known {
+					for _, fg := range ft.Gates {
+						if fg.FailWhen == g.FailWhen && wildMatch(fg.Cond, g.Cond) {
+							known = true
+						}
+					}
+				}
+				if !known {
+					c.R.Bad("APO-EXACT", s.Func, fmt.Sprintf("sink=%s new gate fail_when=%v cond=%s", s.Sink, g.FailWhen, g.Cond), p.Pos(g.Pos),
+						"a new condition now excludes inputs from the accepted set of this recovery routine (valid shares may be refused)")
+				}
+			}
+			c.R.Ok("APO-EXACT", s.Func, "sink="+s.Sink+" no new rejection condition", pos, "", true)
 		}
 		if len(ft.Loops) > 0 {
 			curL := a.FullLoops()
